@@ -335,7 +335,7 @@ def body(r):
             single_fail.setdefault(res["labels"][0], set()).add(sig_of(res))
     # phase 2: pairwise covering array over the values that do not already fail on their own
     # (a failing value is reported as a single; it would poison every combination containing it)
-    n_pair = {"quick": 70, "thorough": 900}[tier]
+    n_pair = {"quick": 70, "thorough": 4000}[tier]
     uncovered = {}
     pjobs = []
     for sampler, options, share in (("ns", NS_OPTIONS, 0.6), ("ins", INS_OPTIONS, 0.4)):
